@@ -512,7 +512,23 @@ def check_parallel_lists(ctx):
         pm = prog.parents(f)
         loops = {}
         for n in f.own_nodes():
+            grows = None
             if isinstance(n, ast.Call) and isinstance(n.func, ast.Attribute) and n.func.attr == "append" and isinstance(n.func.value, ast.Name) and n.func.value.id in f.locals:
+                grows = n.func.value.id
+            elif isinstance(n, ast.Assign) and len(n.targets) == 1 and isinstance(n.targets[0], ast.Subscript) and isinstance(n.targets[0].value, ast.Name) and n.targets[0].value.id in f.locals:
+                # row i of a pre-allocated array, i being the variable of the enclosing counted loop: the array is a
+                # member of the record group just like a list that is appended to
+                sl = n.targets[0].slice
+                first = sl.elts[0] if isinstance(sl, ast.Tuple) and sl.elts else sl
+                if isinstance(first, ast.Name):
+                    cur_ = n
+                    while id(cur_) in pm:
+                        cur_ = pm[id(cur_)]
+                        if isinstance(cur_, ast.For):
+                            if isinstance(cur_.target, ast.Name) and cur_.target.id == first.id:
+                                grows = n.targets[0].value.id
+                            break
+            if grows is not None:
                 cur, conds, loop = n, [], None
                 while id(cur) in pm:
                     p = pm[id(cur)]
@@ -525,8 +541,22 @@ def check_parallel_lists(ctx):
                         conds.append((True, id(p)))
                     cur = p
                 if loop is not None:
-                    loops.setdefault(id(loop), (loop, {}))[1].setdefault(n.func.value.id, []).append((tuple(reversed(conds)), n))
+                    loops.setdefault(id(loop), (loop, {}))[1].setdefault(grows, []).append((tuple(reversed(conds)), n))
         for loop, lists in loops.values():
+            # a member stored on both branches of one `if` is stored unconditionally at the level of that `if`
+            for name in list(lists):
+                apps = list(lists[name])
+                changed = True
+                while changed:
+                    changed = False
+                    for c1, n1 in apps:
+                        if c1 and isinstance(c1[-1], tuple) and c1[-1][0] is True:
+                            twin_ = next(((c2, n2) for c2, n2 in apps if len(c2) == len(c1) and c2[:-1] == c1[:-1] and c2[-1] == (False, c1[-1][1])), None)
+                            if twin_ is not None:
+                                apps = [(c, n_) for c, n_ in apps if (c, n_) not in ((c1, n1), twin_)] + [(c1[:-1], n1)]
+                                changed = True
+                                break
+                lists[name] = apps
             chains = {}
             for name, apps in lists.items():
                 cs = {c for c, _ in apps}
